@@ -3,6 +3,7 @@ CONSTANTS
   Locked = TRUE
   Bodies <- BodiesH
   Modes <- OnlyAnsi
+  Seconds <- NoSecond
   TickMs <- Ticks1
   MaxTicks = 2
   MaxPre = 99
